@@ -645,9 +645,9 @@ def build(tier, seed):
     def shapes():
         """(label, words of A, words of B, wire order): full two-wire register; overlapping registers on three wires"""
         yield "wires(0,1)x(0,1)", W2, W2, [0, 1]
-        yield "wires(0,1)x(1,2)", W2, words_on(PA, [1, 2]), [0, 1, 2]
         yield "wires(a)x(b,a)", words_on(PA, ["a"]), words_on(PA, ["b", "a"]), ["a", "b"]
         if tier != "quick":
+            yield "wires(0,1)x(1,2)", W2, words_on(PA, [1, 2]), [0, 1, 2]
             yield "wires(0,1,2)x(0,1,2)", words_on(PA, [0, 1, 2])[::3], words_on(PA, [0, 1, 2])[1::3], [0, 1, 2]
 
     def snapshot(ps):
@@ -696,7 +696,7 @@ def build(tier, seed):
         plan.add(bilinear(label, wa, wb, order))
     plan.fn_under_contract(FILE, "PauliSentence.__matmul__")
     plan.fn_under_contract(FILE, "PauliSentence.commutator")
-    plan.size_bounds.append("generic-sentence obligations: registers of 2 wires (all 16 words, both operands) and overlapping registers on 3 wires; "
+    plan.size_bounds.append("generic-sentence obligations: registers of 2 wires (all 16 words, both operands; overlapping 3-wire registers in the thorough tier); "
                             "every coefficient a free symbol")
 
     SUPPORTS = [[], [0], [1, 15], [0, 1, 6], list(range(16))]
